@@ -98,6 +98,7 @@ pub fn write_evidence(
 
 pub fn write_replay(
     id: &str,
+    tier: &str,
     cfg: usize,
     cfg_label: &str,
     path: &[serde_json::Value],
@@ -108,6 +109,7 @@ pub fn write_replay(
     let _ = std::fs::create_dir_all(&dir);
     let v = serde_json::json!({
         "property": id,
+        "tier": tier,
         "config": cfg,
         "config_label": cfg_label,
         "path": path,
